@@ -1,3 +1,4 @@
+#![recursion_limit = "256"]
 //! mtsim — deterministic simulation with fault injection for swift-mt-message.
 //!
 //!   mtsim check <C13|C15|C16> <quick|thorough>   driver: workers, merge, evidence, verdict
@@ -164,7 +165,7 @@ fn check(prop: &str, tier: &str) -> i32 {
     let _ = std::fs::remove_dir_all(&work);
     std::fs::create_dir_all(&work).unwrap_or_else(|e| die(&format!("{e}")));
     let exe = std::env::current_exe().unwrap_or_else(|e| die(&format!("{e}")));
-    println!("mtsim check property={property} engine={engine_id} tier={tier} seed={base} runs={total} ({} scenario files x {reps}) workers={workers}", env.scenarios.len());
+    println!("mtsim check property={property} engine={engine_id} tier={tier} seed={base} runs={total} ({} scenario files x {reps}) + {} corpus runs, workers={workers}", env.scenarios.len(), load_corpus(property).len());
     let mut kids = vec![];
     for p in 0..workers {
         let pre = work.join(format!("w{p}"));
@@ -210,7 +211,16 @@ fn check(prop: &str, tier: &str) -> i32 {
     let mut harness: Vec<String> = vec![];
     let mut samples: Vec<Value> = vec![];
     let mut viols: Vec<FoundViolation> = vec![];
+    let mut corpus_runs = 0u64;
+    let mut cand: BTreeMap<String, Vec<Value>> = BTreeMap::new();
     for r in &reports {
+        corpus_runs += r.corpus_runs;
+        for (k, v) in &r.candidates {
+            let e = cand.entry(k.clone()).or_default();
+            if e.len() < 2 {
+                e.push(v.clone());
+            }
+        }
         runs += r.runs;
         nontrivial += r.nontrivial_runs;
         discarded += r.discarded;
@@ -256,6 +266,12 @@ fn check(prop: &str, tier: &str) -> i32 {
             println!("  class: {}   ({} of {} runs)", v.class, n, runs);
             println!("  detail: {}", v.detail);
             println!("  minimised with {} candidate executions ({} accepted); replay: ./check replay {}", v.shrink_tried, v.shrink_accepted, v.replay);
+            if v.history_prefix > 0 && v.reproducible {
+                println!("  note: not a function of the run alone — it needs the {} preceding run(s) of the same process (recorded in the replay file as history prefix): state leaks between calls", v.history_prefix);
+            }
+            if !v.reproducible {
+                println!("  note: observed on real code but NOT reproducible from the recorded run and its recent history: the outcome depends on process state outside the simulator's control (a cache or static written by earlier runs)");
+            }
         }
         reported.push(json!({"class": v.class, "runs": n, "replay": v.replay, "detail": v.detail}));
     }
@@ -265,6 +281,19 @@ fn check(prop: &str, tier: &str) -> i32 {
             new_violations += 1;
             println!("VIOLATION property={property} replay=(not minimised: per-worker cap reached) class={class} runs={n}");
         }
+    }
+    // corpus candidates: written to work/ (git-ignored); tools/corpus_update.py curates them into corpus/
+    if new_violations == 0 && std::env::var("MTSIM_EVIDENCE_DIR").is_err() {
+        let cdir = root.join("work").join("corpus_candidates");
+        let _ = std::fs::create_dir_all(&cdir);
+        let mut text = String::new();
+        for (k, vs) in &cand {
+            for v in vs {
+                text.push_str(&json!({"key": k, "spec": v}).to_string());
+                text.push('\n');
+            }
+        }
+        let _ = std::fs::write(cdir.join(format!("{property}-{tier}.jsonl")), text);
     }
     let wall = t0.elapsed().as_secs_f64();
     if samples.is_empty() {
@@ -285,7 +314,7 @@ fn check(prop: &str, tier: &str) -> i32 {
             "rule": dispatch!(prop, E => rule_text(<E as Engine>::PROPERTY)),
             "samples": samples,
             "technique": "deterministic simulation with fault injection: seeded search over entropy streams, wall-clock faults and caller schedules",
-            "runs": runs, "nontrivial_runs": nontrivial, "discarded_runs": discarded, "discard_reasons": discard_reasons,
+            "runs": runs, "corpus_runs": corpus_runs, "corpus_candidate_keys_reached": cand.len(), "nontrivial_runs": nontrivial, "discarded_runs": discarded, "discard_reasons": discard_reasons,
             "runs_per_hour": if wall > 0.0 { (runs as f64 / wall * 3600.0) as u64 } else { 0 },
             "seeds_per_hour": if wall > 0.0 { (runs as f64 / wall * 3600.0) as u64 } else { 0 },
             "simulated_time_covered_s": (sim_ns / 1_000_000_000) as i64,
@@ -418,6 +447,9 @@ fn determinism(engines: &[&str], pairs: u64, base: u64) -> Result<Value, String>
 
 fn main() {
     let args: Vec<String> = std::env::args().collect();
+    if std::env::var("MTSIM_TRACE_ENTROPY").is_ok() {
+        seam::TRACE.store(1, std::sync::atomic::Ordering::Relaxed);
+    }
     let cmd = args.get(1).map(|s| s.as_str()).unwrap_or("");
     match cmd {
         "selftest" => match selftest() {
